@@ -1427,11 +1427,19 @@ class Interp:
     def call_builtin(self, name, args, kwargs, node, func):
         """numpy's out= convention: the result is WRITTEN INTO the out array (in place, under the conditions of the
         enclosing data-dependent branches) and that array is returned"""
+        if "where" in kwargs and name.startswith("np") and ("out" not in kwargs or kwargs["out"] is None):
+            raise AnalysisError("%s:%d ufunc with where= and no out=: the entries not selected are uninitialised memory" % (func.qualname, node.lineno))
         if "out" in kwargs and kwargs["out"] is not None and name.startswith("np"):
             kwargs = dict(kwargs)
             out = kwargs.pop("out")
+            sel = kwargs.pop("where", None)
             r = self._call_builtin(name, args, kwargs, node, func)
             pc = self._path_cond()
+            if sel is not None and sel is not True:
+                # where=mask: entries where the mask is False KEEP what `out` held (not the value of the operation)
+                if not self.is_mask(sel):
+                    raise AnalysisError("%s:%d where= is not a comparison the analysis follows" % (func.qualname, node.lineno))
+                pc = sel if pc is None else self.dom.cand(pc, sel)
             if isinstance(out, SArr) and self.stn is not None and (isinstance(r, SArr) or self.is_num(r)):
                 rr = r if isinstance(r, SArr) else SArr(out.length, [(0, out.length, self.lift(r))])
                 new = rr if pc is None else self.stn.zip_map(lambda n_, o_: self.dom.where(pc, n_, o_), rr, out)
